@@ -1,10 +1,30 @@
 //! Correspondence harness (native engines). Runs the real sycamore code on generated cases and
 //! writes, per engine, the request lines for the Lean driver, the implementation's canonical
 //! observations and the verdicts of the implementation-side oracles.
+mod num;
 mod route;
 mod util;
 
 use util::Args;
+
+/// `--cases-file F` (repeatable): request lines to run first (corpus / replay);
+/// `--only-cases`: do not generate anything else.
+pub fn corpus_lines(args: &Args) -> (Vec<String>, bool) {
+    let mut lines = vec![];
+    let mut i = 0;
+    while i < args.extra.len() {
+        if args.extra[i] == "--cases-file" {
+            for l in std::fs::read_to_string(&args.extra[i + 1]).unwrap().lines() {
+                if !l.trim().is_empty() && !l.starts_with('#') {
+                    lines.push(l.to_string());
+                }
+            }
+            i += 1;
+        }
+        i += 1;
+    }
+    (lines, args.extra.iter().any(|x| x == "--only-cases"))
+}
 
 fn main() {
     let mut a = std::env::args().skip(1);
@@ -19,9 +39,14 @@ fn main() {
         }
     }
     // Panics are captured per case; keep stderr quiet.
-    std::panic::set_hook(Box::new(|_| {}));
+    std::panic::set_hook(Box::new(|info| {
+        if util::IN_CATCH.with(|c| c.get()) == 0 {
+            eprintln!("harness bug (panic outside a case): {info}");
+        }
+    }));
     match args.engine.as_str() {
         "route" => route::run(&args),
+        "num" => num::run(&args),
         e => {
             eprintln!("unknown engine {e}");
             std::process::exit(2)
